@@ -1,6 +1,7 @@
 #!/bin/bash
 # usage: seedtest.sh <patch.diff> <prop> [<prop>...]   — apply a seeded change to /repo, run the checks, undo
 p=$1; shift
+export VERIF_EVIDENCE_DIR=/var/tmp/seedtest-evidence VERIF_REPLAY_DIR=/var/tmp/seedtest-replay
 cd /repo && git apply "$p" || { echo "PATCH DOES NOT APPLY: $p"; exit 9; }
 for id in "$@"; do (cd /verif && ./check $id 2>&1 | tail -6); echo "  -> rc=$? for $id"; done
 git -C /repo checkout -- . && git -C /repo clean -fdq
